@@ -36,4 +36,11 @@ for d in sorted(glob.glob(str(V / 'seeded' / 'C*-*'))):
     meta = json.load(open(os.path.join(d, 'meta.json')))
     need = ' '.join(meta['needs'].split())[:260].replace('|', '\\|')
     out.append('| %s | %s | %s |' % (n, need, last.get(n, 'not run')))
-print('\n'.join(out))
+text = '\n'.join(out)
+if '--update' in sys.argv:
+    d = (V / 'DESIGN.md').read_text()
+    a, b = d.index('<!-- TABLES:BEGIN -->') + len('<!-- TABLES:BEGIN -->'), d.index('<!-- TABLES:END -->')
+    (V / 'DESIGN.md').write_text(d[:a] + '\n' + text + '\n' + d[b:])
+    print('DESIGN.md section 8 updated')
+else:
+    print(text)
